@@ -52,7 +52,7 @@ class SurveyScenario(BaseScenario):
     def make_config(self, rng):
         return {"pair": rng.choice(sorted(PAIRS)), "two_ws": rng.random() < 0.5, "gc": rng.choices(["none", "op", "io"], [3, 4, 3])[0],
                 "gc_density": rng.choice([0.2, 0.5]), "h5repack": "absent", "n_ops": rng.choice([4, 8, 12, 16]), "link_from": rng.choice(["rx", "partner"]),
-                "hold": rng.random() < 0.5}
+                "hold": rng.random() < 0.5, "peek": rng.random() < 0.5}
 
     def simplify_config(self, cfg):
         out = []
@@ -138,7 +138,11 @@ class SurveyScenario(BaseScenario):
         if not compare.same(_strip(live_px, True), _strip(stored_px, True)):
             raise Violation("C20", "stored_differs", f"{where}: partner's stored metadata {compare._short(stored_px, 200)} differs from live {compare._short(live_px, 200)}",
                             {**discr, "side": "partner"})
-        # partner getters resolve to each other
+        # partner getters resolve to each other (reading them fills the entities' partner caches, so some runs only look
+        # at the very end, on the re-opened file: an oracle that always looks hides what depends on an empty cache)
+        if not (cfg.get("peek", True) or where.startswith("final")):
+            del rx, px
+            return
         got_px = getattr(rx, rx_attr)
         got_rx = getattr(px, px_attr)
         if got_px is None or got_px.uid != px_uid:
